@@ -1,6 +1,7 @@
 //! Correspondence harness for the regress verification framework.
 //! Built with RUSTFLAGS="--cfg regress_verif" against /repo's working tree.
 mod api;
+mod cpsops;
 mod dump;
 mod gen;
 mod specgen;
@@ -177,6 +178,21 @@ fn cmd_exec(args: &[String]) {
     let stdout = std::io::stdout();
     let mut w = std::io::BufWriter::new(stdout.lock());
     let mut id = 0u64;
+    // the deterministic small-shape family runs in shard 0 (seed divisible by 1000)
+    if seed % 1000 == 0 {
+        let mut sid = 0u64;
+        for (p, f, hays) in shape_family() {
+            let pc = cps(&p);
+            let hs: Vec<(String, bool)> = hays.iter().map(|t| (t.clone(), t.is_ascii())).collect();
+            for no_opt in [false, true] {
+                let mut out = String::new();
+                if emit_case(&mut out, &format!("s{}{}", sid, if no_opt { "n" } else { "o" }), &pc, &f, no_opt, &hs, budget, false) {
+                    w.write_all(out.as_bytes()).unwrap();
+                }
+            }
+            sid += 1;
+        }
+    }
     let mut do_case = |p: &[u32], f: &str, r: &mut Rng, w: &mut dyn std::io::Write| {
         let mut hays: Vec<(String, bool)> = vec![];
         for _ in 0..nh {
@@ -321,6 +337,8 @@ fn main() {
         Some("escape") => api::cmd_escape(&args[2..]),
         Some("apicases") => api::cmd_apicases(&args[2..]),
         Some("spec") => specgen::cmd_spec(&args[2..]),
+        Some("cps") => cpsops::cmd_cps(&args[2..]),
+        Some("fold") => cpsops::cmd_fold(&args[2..]),
         _ => {
             eprintln!("usage: rvharness exec <seed> <npatterns> <nhays> <budget> [corpus]");
             std::process::exit(2);
